@@ -2253,6 +2253,8 @@ struct Value {
 
             case ValueType::String: {
                 string_.Reset();
+                // The string constructors set only the string's own bytes; the rest of the payload is cleared too.
+                Memory::Initialize(&array_);
                 break;
             }
 
